@@ -193,3 +193,47 @@ pub fn mix(a: u64, b: u64) -> u64 {
     x = x.wrapping_mul(0xBF58_476D_1CE4_E5B9);
     x ^ (x >> 32)
 }
+
+// ------------------------------------------------------------------------------------------------
+// Trait object side (meta table): every harness resource is an `HObj`.
+
+pub trait HObj {
+    fn hcore(&self) -> &Core;
+    fn hcore_mut(&mut self) -> &mut Core;
+    fn htag(&self) -> u8;
+    fn haddr(&self) -> usize;
+}
+
+macro_rules! hobj {
+    ($($t:ident),*) => { $(
+        impl HObj for $t {
+            fn hcore(&self) -> &Core { &self.core }
+            fn hcore_mut(&mut self) -> &mut Core { &mut self.core }
+            fn htag(&self) -> u8 { <$t as HRes>::TAG }
+            fn haddr(&self) -> usize { self as *const $t as usize }
+        }
+    )* };
+}
+hobj!(R0, R1, R2, R3, R4, R5, R6, R7);
+
+unsafe impl<T: HObj + 'static> shred::CastFrom<T> for dyn HObj {
+    fn cast(t: *mut T) -> *mut Self {
+        t
+    }
+}
+
+/// A deliberately wrong cast (changes the address): the library must reject it by a panic.
+pub trait BadObj {
+    fn btag(&self) -> u8;
+}
+macro_rules! badobj {
+    ($($t:ident),*) => { $( impl BadObj for $t { fn btag(&self) -> u8 { <$t as HRes>::TAG } } )* };
+}
+badobj!(R0, R1, R2, R3, R4, R5, R6, R7);
+
+unsafe impl<T: BadObj + 'static> shred::CastFrom<T> for dyn BadObj {
+    fn cast(t: *mut T) -> *mut Self {
+        // off by one element: not the object that was passed in
+        t.wrapping_add(1)
+    }
+}
